@@ -1,4 +1,5 @@
 import HexProofs.Framework.Maintenance
+import HexProofs.Framework.Gen.ObjectHADemo
 import HexProofs.Framework.Gen.ChainMoreDemo
 import HexProps.C01
 /-
@@ -235,5 +236,105 @@ theorem C02_chain_more {ts : List (Ind F)} (h : CoveredChain [] ts) (tf : Option
       H₂.managers = [(defaultKey, { cfg := { tf := tf, fill := fill && tf.isSome }, candles := cs₂ })] ∧
       closed tf cs₁ <+: cs₂ :=
   Hex.Chain.C02_chain_more h tf htf fill tfn init chunks₁ chunks₂ hraw H₁ H₂ h₁ h₂
+
+
+/-! ### Heikin-Ashi managers (HexProofs/Framework/Gen/ObjectHA.lean) -/
+
+open Hex Hex.C01
+variable {F : Type} [PyF F]
+
+/-- **C02 on any manager spec** (`M : MgrSpec F`, the Heikin-Ashi specs included), all 27 classes: all candles of the
+earlier snapshot but the last (the still-forming bucket) are a prefix of every later snapshot. -/
+theorem C02_trees_mgr (k : Kind F) (name : String) (round : Nat) (hk : CoveredTreeX name k) (M : MgrSpec F)
+    (init : List (Candle F)) (chunks₁ chunks₂ : List (List (Candle F)))
+    (hok : M.Ok (init ++ (chunks₁ ++ chunks₂).flatten)) (snap₁ snap₂ : List (Candle F))
+    (h₁ : candlesOf (runIndicator (mkTop k name round) M.cfg init chunks₁) = .ok snap₁)
+    (h₂ : candlesOf (runIndicator (mkTop k name round) M.cfg init (chunks₁ ++ chunks₂)) = .ok snap₂) :
+    snap₁.dropLast <+: snap₂ :=
+  Hex.C02_trees_mgr hk round M init chunks₁ chunks₂ hok snap₁ snap₂ h₁ h₂
+
+/-- **C02 on a Heikin-Ashi manager without a timeframe** `{ ha := true }`: EVERY candle of the earlier snapshot
+(converted OHLC, the node's readings, its helper series) is already what it is in the later snapshot. -/
+theorem C02_trees_ha (k : Kind F) (name : String) (round : Nat) (hk : CoveredTreeX name k)
+    (init : List (Candle F)) (chunks₁ chunks₂ : List (List (Candle F)))
+    (hraw : RawHAPlain (init ++ (chunks₁ ++ chunks₂).flatten)) (snap₁ snap₂ : List (Candle F))
+    (h₁ : candlesOf (runIndicator (mkTop k name round) { ha := true } init chunks₁) = .ok snap₁)
+    (h₂ : candlesOf (runIndicator (mkTop k name round) { ha := true } init (chunks₁ ++ chunks₂)) = .ok snap₂) :
+    snap₁ <+: snap₂ :=
+  Hex.C02_trees_ha hk round init chunks₁ chunks₂ hraw snap₁ snap₂ h₁ h₂
+
+/-- **C02 on any Heikin-Ashi manager**: any timeframe or none, gap filling off or on (shape of `C02_trees`) -/
+theorem C02_trees_haCfg (tf : Option Int) (htf : ∀ t, tf = some t → 0 < t) (fill : Bool) (k : Kind F)
+    (name : String) (round : Nat) (hk : CoveredTreeX name k) (init : List (Candle F))
+    (chunks₁ chunks₂ : List (List (Candle F)))
+    (hraw : RawTfHA (init ++ (chunks₁ ++ chunks₂).flatten)) (snap₁ snap₂ : List (Candle F))
+    (h₁ : candlesOf (runIndicator (mkTop k name round) { tf := tf, fill := fill && tf.isSome, ha := true } init
+      chunks₁) = .ok snap₁)
+    (h₂ : candlesOf (runIndicator (mkTop k name round) { tf := tf, fill := fill && tf.isSome, ha := true } init
+      (chunks₁ ++ chunks₂)) = .ok snap₂) :
+    closed tf snap₁ <+: snap₂ :=
+  Hex.C02_trees_haCfg hk round tf htf fill init chunks₁ chunks₂ hraw snap₁ snap₂ h₁ h₂
+
+/-- **Truncation of a batch run on a Heikin-Ashi manager** (no timeframe) -/
+theorem batch_truncation_trees_ha (k : Kind F) (name : String) (round : Nat) (hk : CoveredTreeX name k)
+    (stream out : List (Candle F)) (hp : RawHAPlain stream)
+    (h : candlesOf (runBatch (mkTop k name round) { ha := true } stream) = .ok out) (n : Nat) :
+    candlesOf (runBatch (mkTop k name round) { ha := true } (stream.take n)) = .ok (out.take n) :=
+  Hex.batch_truncation_trees_ha hk round stream out hp h n
+
+open Hex.Chain in
+/-- **C02 for chains of any length, every class, on `{ ha := true }`**: every candle of the earlier default manager is
+final -/
+theorem C02_chain_more_ha {ts : List (Ind F)} (h : CoveredChain [] ts) (tfn : Option String)
+    (init : List (Candle F)) (chunks₁ chunks₂ : List (List (Candle F)))
+    (hraw : RawHAPlain (init ++ (chunks₁ ++ chunks₂).flatten)) (H₁ H₂ : Hexital F)
+    (h₁ : chainRun ts { ha := true } tfn init chunks₁ = .ok H₁)
+    (h₂ : chainRun ts { ha := true } tfn init (chunks₁ ++ chunks₂) = .ok H₂) :
+    ∃ cs₁ cs₂, H₁.managers = [(defaultKey, { cfg := { ha := true }, candles := cs₁ })] ∧
+      H₂.managers = [(defaultKey, { cfg := { ha := true }, candles := cs₂ })] ∧ cs₁ <+: cs₂ :=
+  Hex.Chain.C02_chain_more_ha h tfn init chunks₁ chunks₂ hraw H₁ H₂ h₁ h₂
+
+open Hex.Chain in
+/-- **C02 for chains of any length, every class, any Heikin-Ashi manager** (shape of `C02_chain_more`) -/
+theorem C02_chain_more_haCfg {ts : List (Ind F)} (h : CoveredChain [] ts) (tf : Option Int)
+    (htf : ∀ t, tf = some t → 0 < t) (fill : Bool) (tfn : Option String) (init : List (Candle F))
+    (chunks₁ chunks₂ : List (List (Candle F))) (hraw : RawTfHA (init ++ (chunks₁ ++ chunks₂).flatten))
+    (H₁ H₂ : Hexital F)
+    (h₁ : chainRun ts { tf := tf, fill := fill && tf.isSome, ha := true } tfn init chunks₁ = .ok H₁)
+    (h₂ : chainRun ts { tf := tf, fill := fill && tf.isSome, ha := true } tfn init (chunks₁ ++ chunks₂) = .ok H₂) :
+    ∃ cs₁ cs₂,
+      H₁.managers = [(defaultKey, { cfg := { tf := tf, fill := fill && tf.isSome, ha := true }, candles := cs₁ })] ∧
+      H₂.managers = [(defaultKey, { cfg := { tf := tf, fill := fill && tf.isSome, ha := true }, candles := cs₂ })] ∧
+      closed tf cs₁ <+: cs₂ :=
+  Hex.Chain.C02_chain_more_haCfg h tf htf fill tfn init chunks₁ chunks₂ hraw H₁ H₂ h₁ h₂
+
+open Hex.Chain in
+/-- **C02 for a source member and a dependent member of any covered class, any Heikin-Ashi manager** -/
+theorem C02_pair_more_haCfg (tf : Option Int) (htf : ∀ t, tf = some t → 0 < t) (fill : Bool)
+    {nameA : String} {kA : Kind F} (hA : SrcVia nameA kA) (roundA : Nat)
+    {main nameB : String} {kB : Kind F} (hB : DepVia main nameB kB) (roundB : Nat)
+    (hmain : main ∈ (mkTop kA nameA roundA).allNames)
+    (hdis : ∀ x ∈ (mkTop kA nameA roundA).allNames, x ∉ (mkTop kB nameB roundB).allNames)
+    (tfn : Option String) (init : List (Candle F)) (chunks₁ chunks₂ : List (List (Candle F)))
+    (hraw : RawTfHA (init ++ (chunks₁ ++ chunks₂).flatten)) (H₁ H₂ : Hexital F)
+    (h₁ : pairRun (mkTop kA nameA roundA) (mkTop kB nameB roundB)
+      { tf := tf, fill := fill && tf.isSome, ha := true } tfn init chunks₁ = .ok H₁)
+    (h₂ : pairRun (mkTop kA nameA roundA) (mkTop kB nameB roundB)
+      { tf := tf, fill := fill && tf.isSome, ha := true } tfn init (chunks₁ ++ chunks₂) = .ok H₂) :
+    ∃ cs₁ cs₂,
+      H₁.managers = [(defaultKey, { cfg := { tf := tf, fill := fill && tf.isSome, ha := true }, candles := cs₁ })] ∧
+      H₂.managers = [(defaultKey, { cfg := { tf := tf, fill := fill && tf.isSome, ha := true }, candles := cs₂ })] ∧
+      closed tf cs₁ <+: cs₂ :=
+  Hex.Chain.C02_pair_more_haCfg tf htf fill hA roundA hB roundB hmain hdis tfn init chunks₁ chunks₂ hraw H₁ H₂ h₁ h₂
+
+/-- non-vacuity: HexProofs/Framework/Gen/ObjectHADemo.lean (KC on the three Heikin-Ashi configurations: the earlier
+snapshot is a proper prefix; on `{ tf := some 120, ha := true }` its last bucket is still forming and NOT final) -/
+example := @Hex.ObjHADemo.sched_raw
+
+#print axioms C02_trees_mgr
+#print axioms C02_trees_ha
+#print axioms C02_trees_haCfg
+#print axioms batch_truncation_trees_ha
+#print axioms C02_chain_more_haCfg
 
 end Hex.C02
